@@ -177,7 +177,7 @@ theorem Info.new_rbEntries_ne {h : HdrGeo} {p : Params} {i : Info} (hn : Info.ne
 
 theorem cacheGeometry_ok {param : Option (Nat × Nat)} {d bs cb b n : Nat}
     (h : cacheGeometry param d bs cb = .ok (b, n)) :
-    ((param = none ∧ b = 12) ∨ (bs ≤ b ∧ b ≤ cb)) ∧ 2 ≤ n := by
+    ((param = none ∧ b = min 12 cb) ∨ (bs ≤ b ∧ b ≤ cb)) ∧ 2 ≤ n := by
   unfold cacheGeometry at h
   cases param with
   | none =>
@@ -829,8 +829,8 @@ def encCompressed (cb off len : Nat) : E64 :=
 theorem fromMapping_compressed (cb off len : Nat) :
     fromMapping cb { source := .compressed, clusterOffset := some off, compressedLength := some len, copied := false }
     = if off > 0x00ffffffffffffff then .panic "l2.rs:from_mapping:offset-range" else
-      if ¬ (len < 2^cb) then .panic "l2.rs:from_mapping:assert-length" else
-      if len = 0 then .panic "l2.rs:from_mapping:length-1-underflow" else
+      if len = 0 then .panic "l2.rs:from_mapping:assert-length-positive" else
+      if ¬ ((len - 1 + off % 512) / 512 < 2^(cb - 8)) then .panic "l2.rs:from_mapping:assert-sectors" else
       if reservedBits (encCompressed cb off len) ≠ 0#64 then .panic "l2.rs:from_mapping:reserved"
       else .ok (encCompressed cb off len) := by
   unfold fromMapping
@@ -838,10 +838,10 @@ theorem fromMapping_compressed (cb off len : Nat) :
   by_cases c1 : off > 0x00ffffffffffffff
   · rw [if_pos c1, if_pos c1]
   rw [if_neg c1, if_neg c1]
-  by_cases c2 : ¬ (len < 2^cb)
+  by_cases c2 : len = 0
   · rw [if_pos c2, if_pos c2]; rfl
   rw [if_neg c2, if_neg c2]
-  by_cases c3 : len = 0
+  by_cases c3 : ¬ ((len - 1 + off % 512) / 512 < 2^(cb - 8))
   · rw [if_pos c3, if_pos c3]; rfl
   rw [if_neg c3, if_neg c3]
   rfl
@@ -1024,16 +1024,21 @@ theorem reservedBits_compressed (e : BitVec 64) (hc : isCompressed e = true) (hc
   unfold isCopied at hcp
   delta E64 at *; bv_decide
 
-/-- compressed entries whose decoded length is below the cluster size re-encode exactly -/
+/-- compressed entries (COPIED clear, offset below 2^56) re-encode exactly, whatever their
+    decoded length: the sector count read from a `cb-8` bit field always fits it again -/
 theorem roundtrip_compressed (cb : Nat) (h9 : 9 ≤ cb) (h21 : cb ≤ 21) (hb : Bool) (g : Nat)
     (e : BitVec 64) (hc : isCompressed e = true) (hcp : isCopied e = false)
     (h56 : (e.extractLsb' 0 (62 - (cb - 8))).toNat < 2^56)
-    (off len : Nat) (hcr : compressedRange cb e = some (off, len)) (hlen : len < 2^cb) :
+    (off len : Nat) (hcr : compressedRange cb e = some (off, len)) :
     fromMapping cb (intoMapping cb hb g e) = .ok e := by
   have hx : 62 - (cb - 8) ≤ 62 := Nat.sub_le _ _
   rw [compressedRange_some cb e hc] at hcr
   simp only [Option.some.injEq, Prod.mk.injEq] at hcr
   obtain ⟨hoff, hlen'⟩ := hcr
+  have hsecLt : (compressedDescriptor e >>> (62 - (cb - 8))).toNat < 2^(cb - 8) := by
+    rw [comp_sectors_toNat e _ hx, BitVec.extractLsb'_toNat,
+      show 62 - (62 - (cb - 8)) = cb - 8 by omega]
+    exact Nat.mod_lt _ (Nat.two_pow_pos _)
   have hoffM : ¬ off > 0x00ffffffffffffff := by
     rw [← hoff, and_lit56_toNat]
     have := Nat.mod_lt (compressedDescriptor e &&& ((1#64 <<< (62 - (cb - 8))) - 1#64)).toNat
@@ -1049,34 +1054,41 @@ theorem roundtrip_compressed (cb : Nat) (h9 : 9 ≤ cb) (h21 : cb ≤ 21) (hb : 
   rw [compressedRange_some cb e hc]
   simp only []
   rw [hoff] at hlen' ⊢
-  rw [hlen', fromMapping_compressed, if_neg hoffM, if_neg (by omega), if_neg (by omega)]
+  have hs : (len - 1 + off % 512) / 512 = (compressedDescriptor e >>> (62 - (cb - 8))).toNat := by
+    have := Nat.mod_lt off (show 0 < 512 by decide)
+    omega
+  have hlen0 : ¬ len = 0 := by
+    have := Nat.mod_lt off (show 0 < 512 by decide)
+    omega
+  rw [hlen', fromMapping_compressed, if_neg hoffM, if_neg hlen0,
+    if_neg (by rw [hs]; exact fun h => h hsecLt)]
   have henc : encCompressed cb off len = e := by
     unfold encCompressed
-    have hs : (len - 1 + off % 512) / 512 = (compressedDescriptor e >>> (62 - (cb - 8))).toNat := by
-      have := Nat.mod_lt off (show 0 < 512 by decide)
-      omega
     rw [hs, ← hoff]
     simp only [BitVec.ofNat_toNat, BitVec.setWidth_eq]
     exact hre
   rw [henc, if_neg (by rw [reservedBits_compressed e hc hcp]; exact fun h => h rfl)]
 
-/-- ... and those whose decoded length reaches the cluster size hit the `assert!` -/
-theorem roundtrip_compressed_panics (cb : Nat) (hb : Bool) (g : Nat)
-    (e : BitVec 64) (hc : isCompressed e = true)
-    (off len : Nat) (hcr : compressedRange cb e = some (off, len)) (hlen : 2^cb ≤ len) :
-    fromMapping cb (intoMapping cb hb g e) = .panic "l2.rs:from_mapping:assert-length" := by
-  have hoffM : ¬ off > 0x00ffffffffffffff := by
-    rw [compressedRange_some cb e hc] at hcr
-    simp only [Option.some.injEq, Prod.mk.injEq] at hcr
-    rw [← hcr.1, and_lit56_toNat]
-    have := Nat.mod_lt (compressedDescriptor e &&& ((1#64 <<< (62 - (cb - 8))) - 1#64)).toNat
-      (show 0 < 2^56 by decide)
-    simp only [Nat.reducePow] at this ⊢
-    omega
-  unfold intoMapping
-  rw [hcr]
-  simp only []
-  rw [fromMapping_compressed, if_neg hoffM, if_pos (by omega)]
+/-- `from_mapping` on a compressed mapping (non-empty, offset in range) hits
+    `assert!(sectors < 1 << (cluster_bits - 8))` exactly when the sector count does
+    not fit its `cb-8` bit field -/
+theorem fromMapping_compressed_sectors_panics_iff (cb off len : Nat)
+    (hoff : off ≤ 0x00ffffffffffffff) (hlen1 : 1 ≤ len) :
+    fromMapping cb { source := .compressed, clusterOffset := some off, compressedLength := some len,
+                     copied := false } = .panic "l2.rs:from_mapping:assert-sectors"
+      ↔ 2^(cb - 8) ≤ (len - 1 + off % 512) / 512 := by
+  rw [fromMapping_compressed, if_neg (by omega), if_neg (by omega)]
+  by_cases hs : (len - 1 + off % 512) / 512 < 2^(cb - 8)
+  · rw [if_neg (fun h => h hs)]
+    constructor
+    · intro h
+      by_cases hr : reservedBits (encCompressed cb off len) ≠ 0#64
+      · rw [if_pos hr] at h
+        exact absurd (Outcome.panic.inj h) (by decide)
+      · rw [if_neg hr] at h; cases h
+    · intro h; omega
+  · rw [if_pos hs]
+    exact ⟨fun _ => by omega, fun _ => rfl⟩
 
 theorem ofNat_toNat_of_lt (n : Nat) (h : n < 2^64) : (BitVec.ofNat 64 n).toNat = n := by
   rw [BitVec.toNat_ofNat]; exact Nat.mod_eq_of_lt h
@@ -1084,19 +1096,13 @@ theorem ofNat_toNat_of_lt (n : Nat) (h : n < 2^64) : (BitVec.ofNat 64 n).toNat =
 /-- decode ∘ encode on a consistent compressed mapping -/
 theorem encode_decode_compressed (cb : Nat) (h9 : 9 ≤ cb) (h21 : cb ≤ 21) (hb : Bool) (g : Nat)
     (off len : Nat) (hoff56 : off < 2^56) (hoffx : off < 2^(62 - (cb - 8)))
-    (hlen1 : 1 ≤ len) (hlen : len < 2^cb) (hcons : (len + off % 512) % 512 = 0) :
+    (hlen1 : 1 ≤ len) (hS : (len - 1 + off % 512) / 512 < 2^(cb - 8)) (hcons : (len + off % 512) % 512 = 0) :
     fromMapping cb { source := .compressed, clusterOffset := some off, compressedLength := some len,
                      copied := false } = .ok (encCompressed cb off len) ∧
     intoMapping cb hb g (encCompressed cb off len)
       = { source := .compressed, clusterOffset := some off, compressedLength := some len,
           copied := false } := by
-  have hP1 : 2^cb = 512 * 2^(cb - 9) := by
-    rw [show (512:Nat) = 2^9 from rfl, ← Nat.pow_add]; congr 1; omega
-  have hP2 : 2^(cb - 8) = 2 * 2^(cb - 9) := by
-    rw [show (2:Nat) * 2^(cb - 9) = 2^1 * 2^(cb - 9) from rfl, ← Nat.pow_add]; congr 1; omega
-  have hP3 := Nat.two_pow_pos (cb - 9)
   have hr := Nat.mod_lt off (show 0 < 512 by decide)
-  have hS : (len - 1 + off % 512) / 512 < 2^(cb - 8) := by omega
   have hS64 : (len - 1 + off % 512) / 512 < 2^64 :=
     Nat.lt_of_lt_of_le hS (Nat.pow_le_pow_right (by decide) (by omega))
   have ho64 : off < 2^64 := Nat.lt_of_lt_of_le hoff56 (by decide)
@@ -1111,7 +1117,7 @@ theorem encode_decode_compressed (cb : Nat) (h9 : 9 ≤ cb) (h21 : cb ≤ 21) (h
       (BitVec.ofNat 64 ((len - 1 + off % 512) / 512) <<< (62 - (cb - 8))) ||| BitVec.ofNat 64 off := rfl
   refine ⟨?_, ?_⟩
   · rw [fromMapping_compressed, if_neg (by simp only [Nat.reducePow] at hoff56; omega),
-      if_neg (by omega), if_neg (by omega), henc, f4, if_neg (fun h => h rfl)]
+      if_neg (by omega), if_neg (fun h => h hS), henc, f4, if_neg (fun h => h rfl)]
   · unfold intoMapping
     rw [henc, compressedRange_some cb _ f1, f2, f3, hoT, hsT]
     simp only []
